@@ -4,7 +4,7 @@ from props import opseq
 
 HARNESS = ("atomh",)
 TRUSTED = ["Queue.v models positions/stamps as linear counters; the bit encoding of queue.rs (lap | closed flag | index, next_queue_pos, the carry flag of len) is abstracted by a strictly monotone re-encoding and exercised by the correspondence over several laps and capacities 1,2,3,4,5,7,8,16",
-           "concurrent part: NOT proved. The real queue.rs (verbatim mirror) runs under a deterministic scheduler at atomic-operation granularity (sequentially consistent interleavings only; the Ordering arguments are recorded, not given a weak-memory semantics); random and enumerated schedules are judged by an oracle written from the property text (exactly-once, per-producer FIFO, capacity, quiescent len, close semantics)",
+           "concurrent part: QueueConc.v models every shared-memory access of Queue::push, Queue::pop and the drop of the MessageBorrow as one step (any number of producers, one consumer, close at any time, spurious failure of compare_exchange_weak), under SEQUENTIALLY CONSISTENT interleaving: the Release/Acquire orderings of the stamp accesses are recorded, not given a weak-memory semantics (the message hand-over through the cell relies on them); the invariant and its consequences (c12_conc_*) are proved for every interleaving; the model is tied to the code by replaying every explored trace of the verbatim queue.rs under the deterministic scheduler step by step in the extracted model (positions, closed flag, stamps after every access; outcomes and delivered values at the end; tools/queuereplay.py), and the same traces are judged by an oracle written from the property text",
            "wake-up pairing of channel.rs (async_event::Event, diatomic_waker) is trusted; covered behaviourally by the Sim benches with capacity-1 mailboxes (C03/C07)"]
 ASSUMPTIONS = ["one consumer; at most one outstanding borrow"]
 
@@ -100,6 +100,18 @@ def tie(rep, tier, rng, model_ok):
     rep.cov["distinct_nontrivial"] += distinct
     rep.cov["parts"]["queue-concurrent-schedules"] = {"schedules": len(conc), "distinct_traces": distinct, "oracle_failures": len(real),
                                                      "step_budget_exceeded": budget, "orderings_seen": sorted(set(t.split()[2] for o in outs[:200] if "|" in o for t in o.split("|", 1)[1].split(" ; ") if len(t.split()) > 3 and t.split()[1] not in ("ghost",)))[:8]}
+    if model_ok:
+        import queuereplay
+        n, nsteps, rbad, skipped = queuereplay.replay(conc, outs)
+        rep.cov["parts"]["queue-concurrent-model-replay"] = {"traces_replayed": n, "model_steps": nsteps, "disagreements": len(rbad),
+                                                           "traces_not_mapped": len(skipped), "not_mapped_sample": skipped[:2]}
+        rep.cov["traces_validated_against_impl"] += n
+        if (rbad or skipped) and not real:
+            b = min(rbad, key=lambda x: len(x["case"])) if rbad else {"case": skipped[0]["case"], "why": "trace not mapped: " + skipped[0]["why"]}
+            d = {"kind": "broken-correspondence", "what": "a trace of the real channel/queue.rs is not a run of QueueConc.v (the theorems c12_conc_* are about QueueConc.v)",
+                 "disagreements": len(rbad), "not_mapped": len(skipped)}
+            d.update(b)
+            rep.violation("queue-concurrent-model-replay", d, no_input=True)
     rep.cov["rule"] += " | concurrent: 1-3 producers x 1-3 pushes, a consumer, optional close, capacities 1..4, random schedules at atomic-operation granularity on the verbatim queue.rs; non-trivial = distinct traces"
     rep.cov["samples"].append({"case": conc[0], "impl": outs[0][:300]})
     if real:
